@@ -125,4 +125,20 @@ def CInv (c : CState) : Prop :=
 def crun (c : CState) (ops : List COp) : CState := ops.foldl cstep c
 
 
+/-- does a C-level call count as an allocating call (one `malloc_count` increment, one tick of the
+    countdown)?  Every malloc, strdup, strndup and every calloc whose product does not overflow —
+    whether it succeeds or fails; realloc, free and the control calls do not. -/
+def COp.allocating : COp → Bool
+  | .malloc => true
+  | .strdup _ => true
+  | .strndup _ _ => true
+  | .calloc a b => !callocOverflows a b
+  | _ => false
+
+/-- `malloc_count` as a function of the history: allocating calls since the last reset -/
+def expectedCountFrom (k : Nat) : List COp → Nat
+  | [] => k
+  | .countReset :: rest => expectedCountFrom 0 rest
+  | op :: rest => expectedCountFrom (if op.allocating then k + 1 else k) rest
+
 end Failable
